@@ -72,11 +72,43 @@ func vNewLogStore(tag string, w int) *mLogStore {
 		vAssume(vImplies(p == 1, vAnd(s.low <= idx, idx <= s.high)))
 		vAssume(vImplies(vAnd(!empty, vOr(idx == s.low, idx == s.high)), p == 1))
 		vAssume(s.typ.Get(idx) <= 255)
-		vAssume(s.data.Get(idx) < 1<<33)
-		vAssume(s.ext.Get(idx) < 1<<33)
+		vAssume(vCanonBlobCell(s.data.Get(idx)))
+		vAssume(vCanonBlobCell(s.ext.Get(idx)))
 	}
 	return s
 }
+
+// vNewLogStoreShaped: like vNewLogStore but the extent (low, high) is chosen by
+// case split relative to the base and the log is contiguous: concrete shape,
+// symbolic content. Positions then fold in the simplifier instead of burdening
+// the solver.
+func vNewLogStoreShaped(tag string, w int) *mLogStore {
+	s := &mLogStore{w: w,
+		present: vWinNew(tag+".present", w, 64), term: vWinNew(tag+".term", w, 64),
+		typ: vWinNew(tag+".typ", w, 64), data: vWinNew(tag+".data", w, 64), ext: vWinNew(tag+".ext", w, 64)}
+	base := vBase()
+	hi := vChoose(tag+".hiOff", 0, w)
+	lo := 0
+	if hi > 0 {
+		lo = vChoose(tag+".loOff", 1, hi)
+		s.low, s.high = base+uint64(lo), base+uint64(hi)
+	}
+	for k := 1; k <= w; k++ {
+		idx := base + uint64(k)
+		if hi > 0 && k >= lo && k <= hi {
+			s.present.Set(idx, 1)
+		} else {
+			s.present.Set(idx, 0)
+		}
+		vAssume(s.typ.Get(idx) <= 255)
+		vAssume(vCanonBlobCell(s.data.Get(idx)))
+		vAssume(vCanonBlobCell(s.ext.Get(idx)))
+	}
+	return s
+}
+
+// a blob cell is canonical: content id in the low 32 bits, bit 32 = nil flag, nil implies empty
+func vCanonBlobCell(c uint64) bool { return vOr(c < 1<<32, c == 1<<32) }
 
 // vEmptyLogStore creates an empty store whose window cells are unconstrained
 // garbage (never read while absent).
@@ -227,6 +259,10 @@ type mStable struct {
 	calls     []mCall
 	crashAt   int // >0: the call with this ordinal "crashes" (panics mCrash) before taking effect
 	ncalls    int
+	// ghost: arguments of the vote-record write attempts of the current handler call
+	hasT, hasC bool
+	pendT      uint64
+	pendC      []byte
 }
 
 type mCrash struct{}
@@ -240,6 +276,9 @@ func (s *mStable) tick() {
 
 func (s *mStable) Set(key []byte, val []byte) error {
 	s.tick()
+	if string(key) == "LastVoteCand" {
+		s.hasC, s.pendC = true, val
+	}
 	if s.failOn && vFail("stable.Set") {
 		s.calls = append(s.calls, mCall{opStableSet, 0, 0, false})
 		return errInjected
@@ -267,6 +306,9 @@ func (s *mStable) Get(key []byte) ([]byte, error) {
 
 func (s *mStable) SetUint64(key []byte, val uint64) error {
 	s.tick()
+	if string(key) == "LastVoteTerm" {
+		s.hasT, s.pendT = true, val
+	}
 	if s.failOn && vFail("stable.SetUint64") {
 		s.calls = append(s.calls, mCall{opStableSetU64, 0, val, false})
 		return errInjected
